@@ -127,6 +127,17 @@ theorem decodeKids_fields (jn : JidNorm) (acc : Form) (fs : List Field) :
       rw [ih, hf]
       simp
 
+/-! ### submission -/
+
+theorem submitField_eq (jn : JidNorm) (frm : Form) (vals : Vals) (f : Field) :
+    submitField jn frm vals f = (submittedField jn frm vals f).map (encodeField jn) := by
+  unfold submitField submittedField
+  by_cases h1 : f.typ = "fixed"
+  · simp [h1]
+  · by_cases h2 : (!f.required && !(Form.get jn frm vals f.var).2) = true
+    · simp [h1, h2]
+    · simp [h1, h2]
+
 /-! ### line splitting -/
 
 theorem splitNL_line (l : List Char) (h : ∀ c ∈ l, isNL c = false) : splitNL l = [l] := by
